@@ -101,7 +101,7 @@ fn render(x: &Xp) -> String {
 
 pub fn run(tier: &str) -> i32 {
     let rep = Report::new("C19", tier, "model_checking");
-    rep.set_rule("inputs: every single / pair / (bounded) triple of the C15 misuse injections at every position (inputs breaking several rules at once), the host corpus, C16's instruction pairs. For every input the hooks build enumerates EVERY iteration order of every HashMap/HashSet that is iterated during the expansion (choice points made by the explorer while the real derive runs; n! orders per container for n <= 6, deviation-bounded above), twice per process at different history positions; the rendered result (token text, or the ORDERED diagnostic list) must be identical for all schedules. states = distinct inputs; transitions = order choice edges + generator choice edges; non-trivial = inputs with >= 2 diagnostics. Conformance (labelled sampling over hash seeds): the guard-off build expands the same inputs in K fresh processes (quick 6, thorough 24) and every output must be byte-equal to the explored singleton");
+    rep.set_rule("inputs: every single / pair / (bounded) triple of the C15 misuse injections at every position (inputs breaking several rules at once), the host corpus, C16's instruction pairs. For every input the hooks build enumerates EVERY iteration order of every HashMap/HashSet that is iterated during the expansion (choice points made by the explorer while the real derive runs; n! orders per container for n <= 6, deviation-bounded above), twice per process at different history positions; the rendered result (token text, or the ORDERED diagnostic list) must be identical for all schedules. states = distinct inputs; transitions = order choice edges + generator choice edges; non-trivial = inputs with >= 2 diagnostics. Conformance (labelled sampling over hash seeds): the guard-off build expands the same inputs in K fresh processes (quick 6, thorough 9) and every output must be byte-equal to the explored singleton");
     rep.assume("the only environment-dependent choice in o2o-impl is hash-container iteration order (no statics, env, time or I/O: checked by reading); a std::collections import that bypasses the cfg-switched `use` lines is invisible to the order exploration and is covered only by the fresh-process runs");
     let hooks = match std::env::var("O2OV_HOOKS") {
         Ok(p) => p,
@@ -121,6 +121,14 @@ pub fn run(tier: &str) -> i32 {
         eprintln!("  per space family: {:?}", per);
         if std::env::var("VERIF_COUNT_ONLY").is_ok() {
             return 0;
+        }
+    }
+    // work directories of killed earlier runs (gigabytes) are removed first
+    if let Ok(rd) = std::fs::read_dir(format!("{}/work", crate::report::verif_dir())) {
+        for e in rd.flatten() {
+            if e.file_name().to_string_lossy().starts_with("c19-") {
+                let _ = std::fs::remove_dir_all(e.path());
+            }
         }
     }
     let dir = format!("{}/work/c19-{}", crate::report::verif_dir(), std::process::id());
@@ -161,7 +169,8 @@ pub fn run(tier: &str) -> i32 {
         rep.fail(fl);
     }
     // 2. guard-off: in-process twice + K fresh processes
-    let k_proc = if tier == "quick" { 6 } else { 24 };
+    // (24 fresh processes over the thorough tier's 2.4 M inputs took an hour and 3 GB of output each)
+    let k_proc = if tier == "quick" { 6 } else { 9 };
     let mine: Vec<String> = { use rayon::prelude::*; ins.par_iter().map(|i| render(&expand(&i.src))).collect() };
     // (only verdicts are kept of the second in-process pass and of the fresh processes: K x N output strings were 30 GB
     //  in the thorough tier)
@@ -194,7 +203,10 @@ pub fn run(tier: &str) -> i32 {
                         eprintln!("MACHINERY-ERROR: environment re-run failed");
                         return 2;
                     }
-                    outs.push((label.to_string(), std::fs::read(&o).unwrap_or_default()));
+                    // (only a digest of each run is kept: the files are gigabytes in the thorough tier)
+                    let bytes = std::fs::read(&o).unwrap_or_default();
+                    let _ = std::fs::remove_file(&o);
+                    outs.push((label.to_string(), crate::report::h64(&String::from_utf8_lossy(&bytes)).to_le_bytes().to_vec()));
                 }
                 let differing: Vec<&str> = outs.iter().filter(|(_, b)| *b != outs[0].1).map(|(l, _)| l.as_str()).collect();
                 if differing.is_empty() {
@@ -251,6 +263,7 @@ pub fn run(tier: &str) -> i32 {
                 pdiff[k] = Some((p, got));
             }
         }
+        let _ = std::fs::remove_file(&o);
     }
     if pseen.iter().any(|c| *c != k_proc as u32) {
         eprintln!("MACHINERY-ERROR: a fresh process did not report every input");
@@ -337,6 +350,7 @@ fn trace_getenv(me: &std::path::Path, dir: &str, inp: &str) -> Result<Vec<String
             return Err("traced run failed".into());
         }
         sets.push(std::fs::read_to_string(&log).unwrap_or_default().lines().map(|l| l.to_string()).collect());
+        let _ = std::fs::remove_file(&out);
     }
     // self-test: the shim must have seen the runtime's own reads in the bare run, else it is not live
     if sets[0].is_empty() {
